@@ -44,7 +44,9 @@ JudgeRT(rec) ==
           <<BytesDenote(rec.bytes, exp), "written bytes do not denote the expected fields">>,
           <<rec.unmarshal_ok, "Unmarshal rejected the marshalled text">>,
           <<rec.unmarshal_ok => SameValue(desc, rec.decoded, val), "unmarshalling the marshalled text does not reproduce the value">>,
-          <<\A k \in 1..Len(skipped) : rec.decoded[skipped[k].name] = <<>>, "a skipped field was decoded">> >>)
+          <<\A k \in 1..Len(skipped) : rec.decoded[skipped[k].name] = <<>>, "a skipped field was decoded">>,
+          <<rec.unmarshal_ok => (rec.redecode_ok /\ SameValue(desc, rec.redecoded, val)),
+            "unmarshalling the same text again into the struct that already holds the value does not reproduce the value">> >>)
 
 JudgePass(rec) ==
     LET desc == Table("P5")
